@@ -33,6 +33,8 @@ def _inputs(vc, dim, tag=""):
     else:
         a, c = vc.real("s00" + tag, 1e-3, 1e3), vc.real("s11" + tag, 1e-3, 1e3)
         b = vc.real("s01" + tag, -1e3, 1e3)
+        if not vc.symbolic:
+            b = b * 0.99e-3 * np.sqrt(a * c)  # native sampling: off-diagonal scaled into the positive-definite range
         vc.assume(a * c - b * b > 1e-6)
         S = np.array([[a, b], [b, c]], dtype=object if vc.symbolic else float)
     return nu, S
